@@ -225,6 +225,11 @@ def make_bounds(rng, v, cls, allow_phys, inherited):
     if allow_phys and rng.random() < 0.35:
         lo = rng.choice(["0", "0", "-1", "0.05", None])
         hi = rng.choice([None, None, "100", "500", "250.5"]) if lo is not None else rng.choice(["100", "500", "250.5"])
+        if inherited is not None:      # stay inside the glossary bounds (mfront only logs a warning otherwise)
+            if inherited.lo is not None and (lo is None or float(lo) < float(inherited.lo)):
+                lo = inherited.lo
+            if inherited.hi is not None and (hi is None or float(hi) > float(inherited.hi)):
+                hi = inherited.hi
         v.phys = Bnd(lo, hi)
     ph = v.phys or inherited
     if rng.random() >= 0.5:
